@@ -388,6 +388,7 @@ type FuncResult struct {
 	Contract     *Contract
 	Paths        int
 	Locals       []LocalDecl
+	LoopHeaders  []string
 }
 
 func (w *World) verifyFunc(pi *PkgInfo, fd *ast.FuncDecl, c *Contract, mode string) (res *FuncResult) {
@@ -396,6 +397,7 @@ func (w *World) verifyFunc(pi *PkgInfo, fd *ast.FuncDecl, c *Contract, mode stri
 	res = &FuncResult{Func: vc.fname, Key: funcKey(fd), Pkg: pi.Path, Contract: c}
 	if fd != nil {
 		res.Locals = localDecls(pi.P.TypesInfo, fd)
+		res.LoopHeaders = loopPrints(fd)
 	}
 	defer func() {
 		if r := recover(); r != nil {
@@ -430,10 +432,19 @@ func (vc *VC) run() {
 	info := pi.P.TypesInfo
 	vc.scanBoxed(fd.Body, info)
 	vc.loopIndex = map[ast.Node]int{}
+	ords := alignLoops(vc.fname, loopPrints(fd))
 	ast.Inspect(fd.Body, func(n ast.Node) bool {
 		switch n.(type) {
 		case *ast.ForStmt, *ast.RangeStmt:
-			vc.loopIndex[n] = len(vc.loopIndex) + 1
+			k := len(vc.loopIndex)
+			if k < len(ords) {
+				vc.loopIndex[n] = ords[k]
+				if ords[k] != k+1 {
+					vc.depsUsed[fmt.Sprintf("loop %d of the function is taken for `loop %d` of the contract (same header as on the baseline tree; loops were inserted or removed)", k+1, ords[k])] = true
+				}
+			} else {
+				vc.loopIndex[n] = k + 1
+			}
 		}
 		return true
 	})
